@@ -142,6 +142,7 @@ func init() {
 			return nil
 		},
 		"errors.Is":   mErrorsIs,
+		"errors.As":   mErrorsAs,
 		"fmt.Errorf":  mErrorf,
 		"fmt.Sprintf": func(e *Engine, a []Value) Value { return Str{S: mFormat(e, a)} },
 
@@ -690,4 +691,63 @@ func mErrorf(e *Engine, a []Value) Value {
 	cell := new(Value)
 	*cell = Struct{Str{S: msg}}
 	return Iface{T: errorStringType, V: cell}
+}
+
+// mErrorsAs models errors.As: walks the Unwrap chain; the first error whose dynamic type is assignable
+// to the target's element type is stored into the target.
+func mErrorsAs(e *Engine, a []Value) Value {
+	err := a[0].(Iface)
+	target := a[1].(Iface)
+	if target.T == nil {
+		e.goPanicStr("errors: target cannot be nil")
+	}
+	pt, ok := target.T.Underlying().(*types.Pointer)
+	tp, ok2 := target.V.(*Value)
+	if !ok || !ok2 || tp == nil {
+		e.goPanicStr("errors: target must be a non-nil pointer")
+	}
+	elem := pt.Elem()
+	var rec func(err Iface) bool
+	rec = func(err Iface) bool {
+		for {
+			if err.T == nil {
+				return false
+			}
+			if it, isI := elem.Underlying().(*types.Interface); isI {
+				if types.Implements(err.T, it) {
+					storeInto(tp, err)
+					return true
+				}
+			} else if types.Identical(err.T, elem) {
+				storeInto(tp, err.V)
+				return true
+			}
+			if am := e.methodOf(err.T, "As"); am != nil {
+				if e.BranchB(e.call(am, []Value{err.V, target}, nil).(Bool)) {
+					return true
+				}
+			}
+			u := e.methodOf(err.T, "Unwrap")
+			if u == nil {
+				return false
+			}
+			switch r := e.call(u, []Value{err.V}, nil).(type) {
+			case Iface:
+				if r.T == nil {
+					return false
+				}
+				err = r
+			case Slice:
+				for i := 0; i < r.Len; i++ {
+					if rec((*r.A)[r.Off+i].(Iface)) {
+						return true
+					}
+				}
+				return false
+			default:
+				return false
+			}
+		}
+	}
+	return Bool{V: rec(err)}
 }
